@@ -1,9 +1,9 @@
 (* Extract/Crypto.v — extraction of the shared crypto foundation for the CRYPTO selftest driver.
    Directives in force: only those of the two standard files required here. *)
 From Coq Require Extraction ExtrOcamlBasic ExtrOcamlZBigInt.
-From Verif Require Import Lib.Bytes Crypto.Sha256 Crypto.Sha512 Crypto.Sha512Z Crypto.Ripemd160 Crypto.Hmac Crypto.Secp256k1.
+From Verif Require Import Lib.Bytes Crypto.Sha256 Crypto.Sha256N Crypto.Sha512 Crypto.Sha512Z Crypto.Ripemd160 Crypto.Ripemd160Z Crypto.Hmac Crypto.Secp256k1.
 Extraction Language OCaml.
-Extraction "../ocaml/crypto_model.ml" bz zb sha256 sha256d sha512 sha512_z ripemd160 hash160 hmac_sha256 hmac_sha512
+Extraction "../ocaml/crypto_model.ml" bz zb sha256 sha256_n sha256d sha512 sha512_z ripemd160 ripemd160_z hash160 hmac_sha256 hmac_sha512
   pbkdf2_hmac_sha512 secp_p secp_n secp_G powmod inv_mod inv_mod_fermat mod_sqrt on_curve pt_neg pt_add pt_double
   pt_mul secp_pub decompress compress ser_point_compressed ser_point_uncompressed parse_point
   ecdsa_sign ecdsa_low_s ecdsa_verify bits2int rfc6979_nonce ecdsa_sign_rfc6979.
